@@ -55,7 +55,7 @@ AllOps == UNION {{Code(t)[i] : i \in 1..Len(Code(t))} : t \in Thr}
 Atoms == {i.o : i \in {j \in AllOps : j.op \in {"ld", "st"}}}
 Mtxs == {i.o : i \in {j \in AllOps : j.op \in {"lock", "unlock", "trylock", "tunlock"}}}
 Rws == {i.o : i \in {j \in AllOps : j.op \in {"read", "write", "tryread", "trywrite", "unlockr", "unlockw", "tunlockr", "tunlockw"}}}
-Ntfs == {i.o : i \in {j \in AllOps : j.op = "ntf"}}         \* the Notify of a JoinHandle: notified once, by the ending thread
+Ntfs == {i.o : i \in {j \in AllOps : j.op \in {"ntf", "join"}}}         \* the Notify of a JoinHandle: notified once, by the ending thread
 Chans == {i.o : i \in {j \in AllOps : j.op \in {"send", "recv", "tryrecv", "droprx"}}}
 Arcs == {i.o : i \in {j \in AllOps : j.op \in {"aclone", "adrop", "acount"}}}
 \* access slots of channels and Arcs: <<object, class, thread>> (thread 0: one slot for all threads)
@@ -101,6 +101,7 @@ Ex0 == [pc |-> [t \in Thr |-> 1],
         chq |-> [c \in Chans |-> <<>>],                     \* queued messages
         closed |-> [c \in Chans |-> FALSE],                 \* receiver dropped
         cnt |-> [a \in Arcs |-> 1],                        \* strong count: main creates the Arc (and clones it for the others)
+        ntfd |-> [j \in Ntfs |-> FALSE],                    \* Notify::notified (the JoinHandle's Notify: never spurious)
         tok |-> [t \in Thr |-> FALSE],                      \* park token
         parked |-> [t \in Thr |-> FALSE],
         ctl |-> <<>>,                                        \* exploration-control calls made since the last scheduling point
@@ -162,6 +163,8 @@ Arrive(e0, a) ==
          [] ins.op = "read"  -> [e EXCEPT !.op[a] = ins, !.st[a] = IF e.rw[ins.o].w # 0 THEN "blocked" ELSE @]
          [] ins.op = "write" -> [e EXCEPT !.op[a] = ins, !.st[a] = IF e.rw[ins.o].w # 0 \/ e.rw[ins.o].r # {} THEN "blocked" ELSE @]
          [] ins.op = "recv"  -> [e EXCEPT !.op[a] = ins, !.st[a] = IF e.chq[ins.o] = <<>> THEN "blocked" ELSE @]
+         \* JoinHandle::join = Notify::wait: branch_opaque if already notified, else blocked
+         [] ins.op = "join"  -> [e EXCEPT !.op[a] = ins, !.st[a] = IF ~e.ntfd[ins.o] THEN "blocked" ELSE @]
          [] ins.op = "droprx" -> [e EXCEPT !.op[a] = [op |-> "drain", o |-> ins.o]]       \* non-empty (RunToBranch)
          [] ins.op = "park"  -> [e EXCEPT !.op[a] = NoOp, !.st[a] = "blocked", !.parked[a] = TRUE, !.pc[a] = @ + 1]
          [] OTHER            -> [e EXCEPT !.op[a] = ins]
@@ -260,7 +263,11 @@ Perform(e, t) ==
     [] ins.op = "lock"    -> [Acquire(e, t, ins.o) EXCEPT !.pc[t] = @ + 1]
     [] ins.op = "trylock" -> IF e.holder[ins.o] # 0 THEN [e EXCEPT !.regs[t] = Append(@, 0), !.pc[t] = @ + 1]
                              ELSE [Acquire(e, t, ins.o) EXCEPT !.regs[t] = Append(@, 1), !.pc[t] = @ + 1]
-    [] ins.op = "ntf"     -> [e EXCEPT !.pc[t] = @ + 1]
+    \* Notify::notify: set the flag, wake (Thread::wake) whoever waits on this object
+    [] ins.op = "ntf"     -> [e EXCEPT !.pc[t] = @ + 1, !.ntfd[ins.o] = TRUE,
+                                       !.st = [u \in Thr |-> IF u # t /\ e.op[u].o = ins.o /\ e.st[u] \in {"blocked", "yield"}
+                                                             THEN "runnable" ELSE e.st[u]]]
+    [] ins.op = "join"    -> [e EXCEPT !.pc[t] = @ + 1, !.ntfd[ins.o] = FALSE]
     \* RwLock::post_acquire_read_lock: pending writers are blocked; post_acquire_write_lock: everybody pending on the lock
     [] ins.op \in {"read", "tryread"} ->
          IF e.rw[ins.o].w # 0 THEN [e EXCEPT !.regs[t] = Append(@, 0), !.pc[t] = @ + 1]          \* only try_read gets here
@@ -324,6 +331,8 @@ ExecRef(c, t) ==
     [] i.op = "aclone"  -> [s1 EXCEPT !.cnt[i.o] = @ + 1]
     [] i.op = "adrop"   -> [s1 EXCEPT !.cnt[i.o] = @ - 1]
     [] i.op = "acount"  -> [s1 EXCEPT !.regs[t] = Append(@, c.cnt[i.o])]
+    [] i.op = "ntf"     -> [s1 EXCEPT !.ntfd[i.o] = TRUE]
+    [] i.op = "join"    -> [s1 EXCEPT !.ntfd[i.o] = FALSE]
     [] i.op = "park"    -> [s1 EXCEPT !.tok[t] = FALSE]
     [] i.op = "unpark"  -> [s1 EXCEPT !.tok[i.o] = TRUE]
     [] OTHER            -> s1
@@ -353,6 +362,7 @@ RefFrom(s) ==
                              /\ c.pc[t] <= Len(Code(t)) =>
                                   LET i == Code(t)[c.pc[t]] IN
                                   /\ i.op = "lock" => s.holder[i.o] = 0
+                                  /\ i.op = "join" => s.ntfd[i.o]
                                   /\ i.op = "read" => s.rw[i.o].w = 0
                                   /\ i.op = "write" => (s.rw[i.o].w = 0 /\ s.rw[i.o].r = {})
                                   /\ i.op = "recv" => s.chq[i.o] # <<>>
@@ -367,7 +377,7 @@ RefFrom(s) ==
      ELSE IF En = {} THEN {[end |-> "deadlock", regs |-> <<>>]}
      ELSE UNION {RefFrom(StepOf(t)) : t \in Pick}
 RefOutcomes == RefFrom([pc |-> Ex0.pc, val |-> Ex0.val, holder |-> Ex0.holder, rw |-> Ex0.rw, regs |-> Ex0.regs,
-                        chq |-> Ex0.chq, closed |-> Ex0.closed, cnt |-> Ex0.cnt, tok |-> Ex0.tok,
+                        chq |-> Ex0.chq, closed |-> Ex0.closed, cnt |-> Ex0.cnt, tok |-> Ex0.tok, ntfd |-> Ex0.ntfd,
                         last |-> 1, frozen |-> FALSE, skipped |-> FALSE])
 NOps == LET RECURSIVE Sum(_) Sum(t) == IF t > N THEN 0 ELSE Len(Code(t)) + Sum(t + 1) IN Sum(1)
 
